@@ -267,6 +267,8 @@ func init() {
 			}
 			if r.branch(c) {
 				r.knownCtx = id
+			} else if r.knownCtx == id {
+				r.knownCtx = "" // the region of this finding ends here
 			}
 			return nil
 		},
